@@ -693,8 +693,24 @@ func (m *metadataAPI) newPartitionFailoverExpiredHandler(p *partition) failoverE
 
 func (m *metadataAPI) newPartitionFailoverHandler(p *partition) failoverHandler {
 	return func(ctx context.Context) *status.Status {
+		// The quorum has been used up: forget the witnesses so that the next
+		// failover needs a fresh quorum of reports.
+		m.mu.Lock()
+		delete(m.partitionFailovers, p)
+		m.mu.Unlock()
 		return m.electNewPartitionLeader(ctx, p)
 	}
+}
+
+// dropPartitionFailover cancels and removes the in-flight failover for the
+// partition, if there is one.
+func (m *metadataAPI) dropPartitionFailover(p *partition) {
+	m.mu.Lock()
+	if failover, ok := m.partitionFailovers[p]; ok {
+		failover.cancel()
+		delete(m.partitionFailovers, p)
+	}
+	m.mu.Unlock()
 }
 
 // SetStreamReadonly sets a stream's readonly flag if this server is the
@@ -1259,6 +1275,9 @@ func (m *metadataAPI) ChangeLeader(streamName, leader string, partitionID int32,
 	}
 
 	partition.SetEpoch(epoch)
+
+	// Reports collected so far were about the previous leader.
+	m.dropPartitionFailover(partition)
 
 	// Update broker load counts.
 	m.stats.Lock()
